@@ -495,12 +495,12 @@ def main(tier, seed):
     res = core.Result()
     fam = discovery_family(tier)
     items = [("mc.props.c14", "work_discovery", dict(specs=fam[i:i + 60])) for i in range(0, len(fam), 60)]
-    nops = 6 if tier == "quick" else 8
+    nops = 6 if tier == "quick" else 7
     life_items = []
     for root in life_roots():
         life_items.append(dict(sel=[None, None], nops=nops, roots=[root]))
     # selection pass: several whole periods with selection edits in between (restricted alphabet, deeper)
-    deep = 10 if tier == "quick" else 13
+    deep = 10 if tier == "quick" else 12
     m0 = life_menu([], restricted=True)
     for i, a in enumerate(m0):
         for j, b in enumerate(life_menu([a], restricted=True)):
